@@ -385,9 +385,22 @@ def bits_to_target(bits):
     exponent = bits[-1]
     # the first three bytes are the coefficient in little endian
     coefficient = little_endian_to_int(bits[:-1])
+    # the top bit of the coefficient is a sign bit (Bitcoin Core's
+    # arith_uint256::SetCompact)
+    negative = coefficient & 0x800000
+    coefficient &= 0x7FFFFF
     # the formula is:
     # coefficient * 256**(exponent-3)
-    return coefficient * 256 ** (exponent - 3)
+    if exponent < 3:
+        target = coefficient >> 8 * (3 - exponent)
+    else:
+        target = coefficient * 256 ** (exponent - 3)
+    # a target is never negative and fits in 256 bits
+    if negative and target != 0:
+        raise ValueError("negative target")
+    if target >= 2**256:
+        raise ValueError("target overflows 256 bits")
+    return target
 
 
 def target_to_bits(target):
@@ -395,7 +408,7 @@ def target_to_bits(target):
     raw_bytes = target.to_bytes(32, "big")
     # get rid of leading 0's
     raw_bytes = raw_bytes.lstrip(b"\x00")
-    if raw_bytes[0] > 0x7F:
+    if len(raw_bytes) > 0 and raw_bytes[0] > 0x7F:
         # if the first bit is 1, we have to start with 00
         exponent = len(raw_bytes) + 1
         coefficient = b"\x00" + raw_bytes[:2]
@@ -406,7 +419,8 @@ def target_to_bits(target):
         # coefficient is the first 3 digits of the base-256 number
         coefficient = raw_bytes[:3]
     # we've truncated the number after the first 3 digits of base-256
-    new_bits = coefficient[::-1] + bytes([exponent])
+    # (a target with fewer digits is padded with low-order zero digits)
+    new_bits = coefficient.ljust(3, b"\x00")[::-1] + bytes([exponent])
     return new_bits
 
 
